@@ -53,6 +53,7 @@ type Contract struct {
 	CallsFn   map[string]string // funcparam -> "atmostonce" etc (higher order)
 	FuncParams map[string]*Contract // contracts of function-typed parameters
 	GhostSets  []GhostSet
+	DynCall    *Contract // frame assumed for dynamic calls
 	Unreachable []string // names of return covers that are legitimately dead, e.g. return@1
 }
 
@@ -118,6 +119,7 @@ type GhostSet struct {
 
 type ContractSet struct {
 	ChanGhosts map[string]string // pkg::Type.field -> ghost seq variable
+	ChanCounts map[string]string // pkg::Type.field -> ghost map[ref]int counting receives per owner object
 	LockInvs map[string]*LockInv // pkg::Type.field
 	UFuncs   map[string]*UFunc
 	Axioms   []*SMTAxiom
@@ -130,13 +132,13 @@ type ContractSet struct {
 }
 
 func newContractSet() *ContractSet {
-	return &ContractSet{ChanGhosts: map[string]string{}, LockInvs: map[string]*LockInv{}, UFuncs: map[string]*UFunc{}, Funcs: map[string]*Contract{}, Specs: map[string]*SpecFn{}, Ghosts: map[string]*GhostVar{}}
+	return &ContractSet{ChanGhosts: map[string]string{}, ChanCounts: map[string]string{}, LockInvs: map[string]*LockInv{}, UFuncs: map[string]*UFunc{}, Funcs: map[string]*Contract{}, Specs: map[string]*SpecFn{}, Ghosts: map[string]*GhostVar{}}
 }
 
 var clauseKw = map[string]bool{"props": true, "tier": true, "requires": true, "ensures": true, "modifies": true, "loop": true,
-	"panics": true, "inline": true, "pure": true, "assumes": true, "universe": true, "fresh": true, "params": true, "note": true, "funcparam": true, "ghostset": true, "rangeloop": true, "unreachable": true}
+	"panics": true, "inline": true, "pure": true, "assumes": true, "universe": true, "fresh": true, "params": true, "note": true, "funcparam": true, "ghostset": true, "rangeloop": true, "unreachable": true, "dyncall": true}
 
-var topKw = map[string]bool{"changhost": true, "lockonly": true, "lockinv": true, "lockguar": true, "ufunc": true, "smtaxiom": true, "func": true, "trusted": true, "spec": true, "ghost": true, "lemma": true, "axiom": true, "purepkg": true}
+var topKw = map[string]bool{"chancount": true, "changhost": true, "lockonly": true, "lockinv": true, "lockguar": true, "ufunc": true, "smtaxiom": true, "func": true, "trusted": true, "spec": true, "ghost": true, "lemma": true, "axiom": true, "purepkg": true}
 
 type rawLine struct {
 	text string
@@ -296,6 +298,15 @@ func (cs *ContractSet) parseFile(fset *token.FileSet, f *ast.File, pkgPath strin
 			lm.Expr = parse(it, lm.Src)
 			cs.Lemmas = append(cs.Lemmas, lm)
 			cur = nil
+		case "chancount":
+			// chancount Type.field ghostMap : a receive from the channel stored in Type.field of object o increments ghostMap[o]
+			fs := strings.Fields(it.rest)
+			if len(fs) != 2 {
+				errf(it, "bad chancount")
+				continue
+			}
+			cs.ChanCounts[pkgPath+"::"+fs[0]] = fs[1]
+			cur = nil
 		case "changhost":
 			// changhost Type.field ghostSeq : a send on the channel stored in Type.field appends to ghostSeq
 			fs := strings.Fields(it.rest)
@@ -422,6 +433,19 @@ func (cs *ContractSet) parseFile(fset *token.FileSet, f *ast.File, pkgPath strin
 				cur.Params = strings.Fields(strings.ReplaceAll(it.rest, ",", " "))
 			case "note":
 				cur.Notes = append(cur.Notes, it.rest)
+			case "dyncall":
+				// dyncall modifies ... : frame assumed for calls through unknown function values in this function
+				rest := strings.TrimSpace(strings.TrimPrefix(strings.TrimSpace(it.rest), "modifies"))
+				cur.DynCall = &Contract{Key: cur.Key + ".dyncall", Pkg: cur.Pkg, Trusted: true, Loops: map[int]*LoopSpec{}, Universe: map[string][]string{}, ModSet: true}
+				if strings.HasPrefix(rest, "* except") {
+					cur.DynCall.Modifies = []string{strings.ReplaceAll(rest, ",", " ")}
+				} else if rest != "nothing" {
+					for _, m := range splitTop(rest) {
+						if m = strings.TrimSpace(m); m != "" {
+							cur.DynCall.Modifies = append(cur.DynCall.Modifies, m)
+						}
+					}
+				}
 			case "unreachable":
 				cur.Unreachable = append(cur.Unreachable, strings.Fields(it.rest)...)
 			case "ghostset":
